@@ -207,7 +207,8 @@ Print Assumptions v2_switch_fields_match_methods.
 
 (* openapi.json writes a basePath (the API base path, or nothing as soon as a documented
    route is absolute or a file server is documented) and path keys with that prefix
-   removed. For every design whose non-absolute routes start with the API base path, each
+   removed. For every design whose routes, when neither they nor their service have an absolute
+   path, start with the API base path, each
    key resolved against basePath is the path template of the operation, i.e. (by
    doc2_ops_subset_server_ops) a path the server mounts *)
 Theorem doc2_paths_resolve_partial d : rooted d -> forall o, In o (doc2_ops d) ->
@@ -229,16 +230,6 @@ Print Assumptions doc2_keys_full_when_base_dropped.
 Theorem v2_key_resolves bp k : trivial_base bp = true \/ is_prefix bp k = true -> v2_resolve bp (v2_key bp k) = k.
 Proof. exact (v2_resolve_key bp k). Qed.
 Print Assumptions v2_key_resolves.
-
-(* finding: a service whose own path is absolute (Path("//abs")) under an API base path:
-   no route is absolute, basePath is kept, the key is written in full; the document
-   resolves to a path the server does not mount *)
-Theorem doc2_paths_absolute_service_refuted :
-  exists d o, has_abs d = false /\ has_files d = false /\ In o (doc2_ops d) /\ In o (server_ops d) /\
-    v2_resolve (norm (v2_base d)) (v2_key (norm (v2_base d)) (opath o)) <> opath o /\
-    ~ In (overb o, v2_resolve (norm (v2_base d)) (v2_key (norm (v2_base d)) (opath o))) (map nkey (server_ops d)).
-Proof. exact svcabs_refuted_l. Qed.
-Print Assumptions doc2_paths_absolute_service_refuted.
 
 (* ---- openapi:generate=false ---- *)
 
@@ -307,3 +298,11 @@ Example based_design_keys :
   doc2_written w_based (doc2_ops w_based) = [(GET, [Lit 7]); (POST, [Lit 8; Var 3])] /\
   map (fun vk => v2_resolve [Lit 9] (snd vk)) (doc2_written w_based (doc2_ops w_based)) = map opath (doc2_ops w_based).
 Proof. exact based_example. Qed.
+
+(* regression example (was the finding "absolute service path under a kept basePath") *)
+Example absolute_service_drops_base :
+  rooted w_svcabs /\ has_abs w_svcabs = true /\ v2_base w_svcabs = [] /\
+  doc2_written w_svcabs (doc2_ops w_svcabs) = [(GET, [Lit 5; Lit 6]); (GET, [Lit 9; Lit 7])] /\
+  doc2_resolved w_svcabs (doc2_ops w_svcabs) = doc2_ops w_svcabs /\
+  map nkey (server_ops w_svcabs) = map okey (doc2_ops w_svcabs).
+Proof. exact svcabs_example. Qed.
